@@ -91,7 +91,12 @@ func (op *FsTxn) GetInodeLocked(inum common.Inum) *inode.Inode {
 	cslot := op.LockInode(inum)
 	if cslot.Obj == nil {
 		addr := op.Fs.Super.Inum2Addr(inum)
-		buf := op.Atxn.Op.ReadBuf(addr, common.INODESZ*8)
+		// Read the committed inode from the log, not through this
+		// transaction's buffers: the transaction may still hold an
+		// older copy from an earlier look at this inode (dir.Apply
+		// reads and releases children), taken before the lock was
+		// given up and the inode changed by someone else.
+		buf := op.Fs.Txn.Load(addr, common.INODESZ*8)
 		i := inode.Decode(buf, inum)
 		util.DPrintf(1, "GetInodeLocked # %v: read inode from disk\n", inum)
 		cslot.Obj = i
